@@ -91,22 +91,30 @@ def INDEX(arr, row_num=DEFAULT, column_num=DEFAULT, area_num=DEFAULT):
         column_num = utils.parse_number(column_num)
         if isinstance(column_num, error.XLError):
             return column_num
+
+    def outside(num, size):
+        return num is not DEFAULT and not 0 <= num <= size
+
+    rows = len(arr)
+    cols = len(arr[0]) if bidimensional else rows
+    if outside(row_num, rows) or outside(column_num, cols):
+        return error.REF
+    row = 0 if row_num is DEFAULT else row_num
+    col = 0 if column_num is DEFAULT else column_num
     try:
-        if row_num is DEFAULT:
-            if bidimensional:
-                return [row[column_num - 1] for row in arr]
-            else:
-                return arr[column_num - 1]
-        if column_num is DEFAULT:
-            return arr[row_num - 1]
-        if row_num == 0 and column_num == 0:
+        if row == 0 and col == 0:
             return arr
-        if row_num == 0:
-            return [row[column_num - 1] for row in arr]
-        if column_num == 0:
-            return arr[row_num - 1]
-        if not bidimensional and column_num == 1:
-            return arr[row_num -1]
-        return arr[row_num - 1][column_num - 1]
+        if not bidimensional:
+            # one-dimensional: a single position, given as the row or as the column
+            if row == 0:
+                return arr[col - 1]
+            if col in (0, 1):
+                return arr[row - 1]
+            return error.REF
+        if row == 0:
+            return [r[col - 1] for r in arr]
+        if col == 0:
+            return arr[row - 1]
+        return arr[row - 1][col - 1]
     except (IndexError, TypeError):
         return error.REF
